@@ -11,11 +11,21 @@ from harness.impl.reader import run_reader
 from harness.props.c02 import coq_piece, coq_impl
 
 IMPORTS = "From Ford Require Import Base.Str Lex.Quote Lex.Reader Lex.ReaderSpec Lex.Fixed Corr.C02 Corr.C14."
-THEOREMS = ["C14_fixed_as_free", "C14_fixed_statements", "C14_std_equivalent", "C14_partial",
-            "C14_refuted_literal_split"]
+THEOREMS = ["C14_fixed_as_free", "C14_fixed_statements", "C14_seq_not_in_statements", "C14_std_equivalent",
+            "C14_partial", "C14_partial_seq", "C14_refuted_literal_split"]
 # the one open finding: a character literal continued across lines
 REGIONS = {"literal_split": 1}
 KEYS = {1: "literal-continued-across-lines"}
+# documentation-level regression inputs (the judge's Spec compares statements only): fixed-form lines with text in
+# columns 73+ and what the reader must yield for them (blanks at the end of a line not counted)
+DOC_REGRESSIONS = [
+    (["      integer :: n  !! the number of iterations of the outer loop that run before convergence"],
+     ["integer :: n", "!! the number of iterations of the outer loop that r"]),
+    (["      integer :: m !! the count".ljust(72) + "SEQ00010", "     & , k".ljust(72) + "!note"],
+     ["integer :: m , k", "!! the count"]),
+    (["      x = 1".ljust(72) + "!note", "      y = 2".ljust(72) + ">pre", "      z = 3".ljust(72) + "*alt"],
+     ["x = 1", "y = 2", "z = 3"]),
+]
 RAW_POOL = ["      x = 1", "     1   + 2", "C comment", "c", "*", "! x", "  ! y", "#if A", "", "     ", "      ",
             "   10 continue", "10    y = 2", "      z = 'abc", "     &def'", "      a = 1 ! c", "     +  + b",
             "!$omp parallel", "c$omp do", "C$OMPX", "\t x = 1", "     0 w = 3", "12345 v = 4",
@@ -120,6 +130,15 @@ def run(chk):
     quick = chk.tier == "quick"
     work = tempfile.mkdtemp(prefix="verif_c14_")
     try:
+        # repaired (f4ed78d): with the length limit on, the text of columns 73+ must not reach the documentation
+        for lines, want in DOC_REGRESSIONS:
+            r = run_reader(lines, fixed=True, workdir=work)
+            got = ("ok", [x.rstrip() for x in r[1]]) if r[0] == "ok" else r
+            chk.count(("fixed-doc", tuple(lines)), nontrivial=True, sample={"lines": lines, "impl": r})
+            if got != ("ok", want):
+                chk.violation("failing-input", {"what": "text of columns 73+ reaches the documentation "
+                                                "(statements and documentation lines expected: %r)" % (want,),
+                                                "length_limit": True, "lines": lines, "impl": r}, True)
         # A. converter alone on raw line soups (incl. irregular lines, OMP, cpp, short, long, no final newline)
         cases = []
         for _ in range(500 if quick else 20000):
